@@ -184,7 +184,47 @@ def check_rotation_arc(ctx, cfg, F, H, done):
             if unknown is not None:
                 bad = 'branch condition %s is not a comparison of a.b with a constant' % tm.show(unknown, 0, 4)[:160]
                 break
+            singular = not any('sqrt(' in tm.show(l, 0, 40) for l in ls)       # the regular branch normalises (c, 1 + a.b); which conditions matter follows from the nesting
             if singular:
+                # near-parallel: the identity; near-anti-parallel: a half turn (angle pi) about an axis orthogonal to from (unit-ness: C20 R-POST)
+                consts = [tm.f_of(x) if tm.is_const(x) else None for x in ls]
+                trig = []
+                seen_ = set()
+                for l in ls:
+                    _subterms(l, 'sin', trig, seen_)
+                seen_ = set()
+                for l in ls:
+                    _subterms(l, 'cos', trig, seen_)
+                if all(c is not None for c in consts):
+                    if consts not in ([0.0, 0.0, 0.0, 1.0], [0.0, 0.0, 1.0, 0.0], [0.0, 0.0, -1.0, 0.0]):
+                        bad = 'a singular branch returns the constant %s, which is neither the identity nor a half turn about z' % consts
+                        break
+                elif trig:
+                    def cval(t):
+                        if tm.is_const(t):
+                            return tm.f_of(t)
+                        if t.op in ('fmul', 'fadd') and all(isinstance(x, tm.T) for x in t.args):
+                            vs = [cval(x) for x in t.args]
+                            if all(v is not None for v in vs):
+                                out_ = vs[0]
+                                for v in vs[1:]:
+                                    out_ = out_ * v if t.op == 'fmul' else out_ + v
+                                return out_
+                        if t.op == 'fneg':
+                            v = cval(t.args[0])
+                            return None if v is None else -v
+                        return None
+                    for t_ in trig:
+                        c_ = t_.args[0]
+                        cv = cval(c_)
+                        if cv is None or abs(abs(cv) - math.pi / 2) > 1e-6:
+                            bad = 'the anti-parallel branch rotates by twice %s, which is not a half turn (pi)' % (tm.show(c_, 0, 3)[:60])
+                            break
+                    if bad:
+                        break
+                else:
+                    bad = 'a singular branch is neither a constant nor a fixed-angle rotation'
+                    break
                 continue
             try:
                 q = [alg.nf(l) for l in ls]
@@ -349,6 +389,34 @@ def check_rotate_towards(ctx, cfg, F, done):
         done('R-ROTTOW', name, bad, it)
 
 
+def check_floatext(ctx, cfg, F, H, done):
+    """FloatExt for f32 / f64: lerp(a, b, t) = a + (b - a) t, inverse_lerp(a, b, v) = (v - a) / (b - a), remap(x, i0, i1, o0, o1) = o0 + (o1 - o0) (x - i0) / (i1 - i0)"""
+    n = 0
+    for name, it in sorted(F.items.items()):
+        if it.get('generic') or not (it.get('trait') or '').endswith('FloatExt') or it.get('name') not in ('lerp', 'inverse_lerp', 'remap'):
+            continue
+        r = H.run(it['key'])
+        body = F.body(it['key'])
+        n += 1
+        if r.abort or not isinstance(r.ret, tm.T):
+            ctx.unverifiable('R-FLOATEXT', cfg, name, r.abort or 'no scalar result')
+            continue
+        alg = nf.Algebra()
+        S = Spec(alg)
+        xs = [alg.nf(atom_at(r, i, 0)) for i in range(body['argc'])]
+        mn = it['name']
+        if mn == 'lerp':
+            exp = S.add(xs[0], S.mul(S.sub(xs[1], xs[0]), xs[2]))
+        elif mn == 'inverse_lerp':
+            exp = S.div(S.sub(xs[2], xs[0]), S.sub(xs[1], xs[0]))
+        else:
+            t_ = S.div(S.sub(xs[0], xs[1]), S.sub(xs[2], xs[1]))
+            exp = S.add(xs[3], S.mul(S.sub(xs[4], xs[3]), t_))
+        bad = None if S.eq(alg.nf(r.ret), exp) else '%s is not its documented formula: got (%s) / (%s)' % (mn, alg.nf(r.ret)[0].show(alg.name, 6), alg.nf(r.ret)[1].show(alg.name, 4))
+        done('R-FLOATEXT', name, bad, it)
+    ctx.floor('FloatExt helper instances (%s)' % cfg, n, 6)
+
+
 def _abstract_harness(F):
     """harness in which the polynomial arccos is the symbol acos_approx(.) and the SSE2 sine polynomial is sin(.) lane-wise (both certified by R-APPROX)"""
     from harness import Harness
@@ -450,6 +518,7 @@ def check_slerp(ctx, cfg, F, done):
             ctx.undecided('R-SLERP', cfg, name, 'too many selections')
             continue
         n_sph = 0
+        n_fallback = 0
         bad = None
         for asg, ls in cases:
             alg = nf.Algebra()
@@ -466,6 +535,31 @@ def check_slerp(ctx, cfg, F, done):
             # which branch is this?  it is spherical iff the result mentions the arccos symbol
             txt = ''.join(tm.show(l, 0, 60) for l in ls)
             if 'acos_approx' not in txt:
+                if not is_quat and ('sin(' in txt or 'cos(' in txt):
+                    # anti-parallel fallback of the vector form: self rotated about some orthogonal axis and rescaled - its length must be
+                    # the interpolated length |a| + s (|b| - |a|)
+                    alg2 = nf.Algebra()
+                    alg2.budget = 600000
+                    S2 = Spec(alg2)
+                    try:
+                        for l in ls:
+                            alg2.nf(l)
+                        for v_, info in list(alg2.var_info.items()):
+                            if info[0] == 'fn' and info[1] in ('copysign', 'signum'):
+                                alg2.rel[v_] = Poly.const(1)
+                        alg2.memo.clear()
+                        g2 = [alg2.nf(l) for l in ls]
+                        a2 = [alg2.nf(x) for x in views[0].lanes]
+                        b2 = [alg2.nf(x) for x in views[1].lanes]
+                        s2 = alg2.nf(views[2].lanes[0])
+                        la2, lb2 = alg2.sqrt_r(S2.dot(a2, a2)), alg2.sqrt_r(S2.dot(b2, b2))
+                        L2 = S2.add(la2, S2.mul(s2, S2.sub(lb2, la2)))
+                        if not alg2.reduce(S2.sub(S2.dot(g2, g2), S2.mul(L2, L2))[0]).is_zero():
+                            bad = 'the anti-parallel fallback branch does not have the interpolated length |a| + s (|b| - |a|)'
+                            break
+                        n_fallback += 1
+                    except ValueError:
+                        pass
                 continue          # lerp / degenerate branches: R-ARC, R-ENDPOINT and C20 R-POST
             dot = S.dot(a, b)
             ok = False
@@ -759,6 +853,8 @@ def run(ctx):
                         if not all(S.eq(alg.nf(l), S.mul(u, inv)) for l, u in zip(lanes, un)):
                             bad = 'lerp is not normalize(self + s (+-end - self))'
                 done('R-ARC', name, bad, it)
+        # R-FLOATEXT: the scalar helpers lerp / inverse_lerp / remap
+        check_floatext(ctx, cfg, F, H, done)
         # R-ROTTOW: vector rotate_towards is a rotation of self by the clamped angle
         check_rotate_towards(ctx, cfg, F, done)
         # R-ARCROT: from_rotation_arc(a, b) rotates a onto b
